@@ -159,8 +159,33 @@ type opFn func(args []string) []string
 
 var ops = map[string]opFn{}
 
+// runOpSeg runs `toks` (one delivery of some bytes) and emits it as `seg:<op> args =REF= <ref>`, where ref is the
+// implementation's own output for the whole (unsplit) delivery of the same bytes: the driver then also demands
+// impl == ref, i.e. independence from segmentation is judged on the implementation's outputs alone (C02).
+func runOpSeg(toks []string, ref []string) {
+	f, ok := ops[toks[0]]
+	if !ok {
+		fmt.Fprintln(os.Stderr, "unknown op", toks[0])
+		os.Exit(2)
+	}
+	args := append([]string{"seg:" + toks[0]}, toks[1:]...)
+	args = append(append(args, "=REF="), ref...)
+	emit(args, safe(f, toks[1:]))
+}
+
 // runOp executes one op on the real code and emits the case line.
 func runOp(toks []string) {
+	if strings.HasPrefix(toks[0], "seg:") { // replay of a runOpSeg line
+		var inner, ref []string
+		for i, t := range toks {
+			if t == "=REF=" {
+				inner, ref = toks[1:i], toks[i+1:]
+				break
+			}
+		}
+		runOpSeg(append([]string{toks[0][4:]}, inner...), ref)
+		return
+	}
 	f, ok := ops[toks[0]]
 	if !ok {
 		fmt.Fprintln(os.Stderr, "unknown op", toks[0])
